@@ -240,7 +240,10 @@ PROPS = {
     "C05": {
         "theorems": ["C05_complete_core", "C05_unsat_means_no_valid_schedule", "task_complete", "reqs_complete",
                      "core_raw_complete", "noOverlapPairs_complete", "interruptedOne_complete", "periodicOne_complete",
-                     "periodicInterruptedOne_complete", "indicator_complete", "eval_congr_term", "eval_congr_fml"],
+                     "periodicInterruptedOne_complete", "indicator_complete", "eval_congr_term", "eval_congr_fml",
+                     "C05_sound_core", "C05_feasible_iff", "envOf_schedOf_task", "envOf_schedOf_busy", "core_raw_sound",
+                     "Exact_ex_inCoreS"],
+        "modules": ["Exact"],
         "profiles": [("all", 0.3), ("frag", 0.2), ("resc", 0.1), ("fol", 0.15), ("focus_resc", 0.15), ("focus_taskc", 0.1)],
         "relevant": lambda o: True,
         "spec": None,
@@ -291,6 +294,7 @@ PROPS = {
         "spec": None,
         "exact": True,
         "sm_focus": "solve",
+        "run_profiles": ["obj", "obj", "focus_multiobj"],
         "n_sm": {"quick": 300, "thorough": 4000}, "n_run": {"quick": 60, "thorough": 600},
         "run_check": __import__("harness.solverprops", fromlist=["x"]).run_c07,
         "nontrivial": lambda s: any(d["op"] == "objective" for d in s),
@@ -341,7 +345,8 @@ PROPS = {
         "n": {"quick": 10, "thorough": 50},
     },
     "C15": {
-        "theorems": ["C15_core_cfg_free", "C15_tracked_equiv", "C01_task_timing"],
+        "theorems": ["C15_core_cfg_free", "C15_tracked_equiv", "C01_task_timing", "C15_core_verdict_cfg_free"],
+        "modules": ["Exact"],
         "profiles": [("all", 0.6), ("obj", 0.4)],
         "relevant": lambda o: True,
         "spec": None,
@@ -408,13 +413,15 @@ PROPS = {
         "n": {"quick": 300, "thorough": 4000},
     },
     "C14": {
-        "theorems": ["C14_fresh_problem", "C14_run_after_problem", "C14_valid_order_free", "C05_complete_core"],
+        "theorems": ["C14_fresh_problem", "C14_run_after_problem", "C14_valid_order_free", "C05_complete_core",
+                     "C14_core_verdict", "C14_core_schedules"],
+        "modules": ["Exact"],
         "profiles": [("all", 0.45), ("core", 0.2), ("obj", 0.15), ("buffer", 0.2)],
         "relevant": lambda o: True,
         "spec": None,
         "exact": True,
         "history_enc": True,
-        "run_profiles": ["frag", "frag", "taskc", "obj", "buffer", "resc"],
+        "run_profiles": ["frag", "frag", "taskc", "obj", "buffer", "resc", "focus_multiobj", "focus_multiobj"],
         "n_run": {"quick": 180, "thorough": 2000},
         "run_check": __import__("harness.c14", fromlist=["x"]).run_c14,
         "nontrivial": lambda s: True,
@@ -441,7 +448,7 @@ PROPS = {
         "theorems": ["C02_no_overlap", "C02_load_le_one", "C02_cumulative_capacity", "C02_busy_span",
                      "C02_selection_count", "C02_work_amount", "C02_spec_sound"],
         "modules": ["SpecSound"],
-        "profiles": [("core", 0.5), ("resc", 0.3), ("all", 0.2)],
+        "profiles": [("core", 0.35), ("resc", 0.2), ("all", 0.15), ("resfol", 0.3)],
         "relevant": lambda o: owner_in(o, ("req:", "worker:", "work:")),
         "spec": "C02",
         "nontrivial": lambda s: sum(1 for d in s if d["op"] == "require") >= 2,
